@@ -415,7 +415,7 @@ Definition remove_block (s : st) (b : nat) (to_proxy : bool) : result (bool * st
        let s := match proxy with
                 | Some p => retarget_incoming_edges s b (Some (NP p))
                 | None => match next_ with
-                          | Some n => retarget_incoming_edges s b (Some (NB n))     (* a byte block after a code block is a CfgNode only if it is code *)
+                          | Some n => if is_code s n then retarget_incoming_edges s b (Some (NB n)) else retarget_incoming_edges s b None
                           | None => retarget_incoming_edges s b None
                           end
                 end in
